@@ -311,6 +311,9 @@ pub struct IrrState {
     pub bytes_out: usize,
     /// the connection has been reset: every read and write fails
     pub dead: bool,
+    /// queries (exact line, e.g. "!gAS64501") that are answered with this error every time, on
+    /// every connection
+    pub broken_queries: BTreeMap<String, Fault>,
 }
 
 pub type SharedIrr = Arc<Mutex<IrrState>>;
@@ -334,6 +337,14 @@ impl IrrState {
         }
         let k = self.data_queries;
         self.data_queries += 1;
+        if let Some(f) = self.broken_queries.get(line).copied() {
+            self.faults_fired.push((k, line.to_string(), f));
+            return match f {
+                Fault::NotFound => "D\n".into(),
+                Fault::NotUnique => "E\n".into(),
+                Fault::Other => "F injected error\n".into(),
+            };
+        }
         if let Some(f) = self.faults.get(&k).copied() {
             self.faults_fired.push((k, line.to_string(), f));
             return match f {
